@@ -187,6 +187,10 @@ def gen_ops(ck):
             "networks": [{"id": "n", "pops": [{"id": "p0", "comp": "c0", "size": 2}]}]}
     ops.append({"op": "xml_write_path", "doc": d_am, "faults": ck.n(30, "all")})
     ops.append({"op": "h5_write_embed", "doc": d_am, "faults": ck.n(30, "all")})
+    # non-network content above the 64 kB an HDF5 attribute can hold (the embedded XML is stored as one attribute):
+    # must raise and clean up - or, should a later version store it elsewhere, the file must give every component back
+    ops.append({"op": "h5_write_embed", "doc": {"id": "big", "iaf": 800, "networks": [{"id": "n", "pops": [{"id": "p0", "size": 2}]}]},
+                "faults": [], "must_raise": True, "or_roundtrip": True})
     # two networks: the HDF5 layout (one group "network") cannot hold them
     ops.append({"op": "h5_write_embed", "doc": gen_doc(rng, nets=2), "faults": [], "must_raise": True})
     # the known finding: default ids are written into the caller's document
@@ -455,8 +459,12 @@ def run(ck):
                 prob.append(("retry-differs", "the retried call does not produce what a first call produces: %s"
                              % json.dumps(r.get("retry_diff"))[:300]))
             if what == "dry" and o.get("must_raise") and not r["raised"]:
-                prob.append(("unholdable-construct-not-refused", "the document holds a construct this format cannot hold, "
-                             "and the call returned normally"))
+                if o.get("or_roundtrip") and r.get("roundtrip_missing") == []:
+                    ck.tally("large-embedded-xml:written-and-read-back")  # a legitimate other storage that the parser reads
+                else:
+                    prob.append(("unholdable-construct-not-refused", "the document holds a construct this format cannot hold, "
+                                 "and the call returned normally%s" % ("; loading the file loses %s" % r.get("roundtrip_missing")[:6]
+                                                                       if r.get("roundtrip_missing") else "")))
             if not (fired or natural) and (r["leaked"] or r["doc_changed"]):
                 prob.append(("successful-call-not-clean", "left open %s, doc changed %s" % (r["leaked"], r["doc_changed"])))
             for cls, detail in prob:
@@ -557,6 +565,7 @@ def replay(ck, data):
     inp = data.get("input") or {}
     if "op" in inp:
         spec = {"op": inp["op"], "doc": inp.get("doc", {}), "kinds": [inp.get("kind") or "OSError"], "must_raise": True,
+                "or_roundtrip": True,
                 "faults": [inp["fault_at_call"]] if inp.get("fault_at_call") is not None else []}
         res = ck.impl("c08_impl.py", {"ops": [spec]})
         o = res["ops"][0]
